@@ -55,6 +55,8 @@ def reserved():
                 for k in ("instance_methods", "class_methods", "constants", "instance_properties"):
                     for m in d.get(k) or []:
                         s.add(m.get("name", ""))
+                # every name the configuration mentions anywhere (types of arguments and returns, frames, parents)
+                s.update(re.findall(r'[A-Za-z_][A-Za-z0-9_]*', json.dumps(d)))
         RESERVED = s
     return RESERVED
 
